@@ -2,7 +2,9 @@ import StepModel.GenDeterm
 import StepModel.ExpressHashLemmas
 import StepModel.ExpressHashComplete
 import StepModel.ExpressHashExpand
-import StepModel.GenCollect
+import StepModel.GenCollectLemmas
+import StepModel.AlphaOrderLemmas
+import StepModel.StrcmpOrder
 import StepModel.GenSelectOrder
 import StepModel.GenPyModule
 import StepModel.GenPyModuleLemmas
@@ -201,15 +203,25 @@ theorem C12_alphabetical_order_walk_independent {α : Type} (lt : α → α → 
     AlphaOrder.Sorted lt (AlphaOrder.alphaOrder lt w₁) ∧ (AlphaOrder.alphaOrder lt w₁).Perm w₁ :=
   ⟨AlphaOrder.alphaOrder_walk_independent lt h w₁ w₂ n₁ n₂ hp, AlphaOrder.alphaOrder_sorted lt h w₁ n₁, AlphaOrder.alphaOrder_perm lt w₁⟩
 
-/-- the hypotheses are satisfiable -/
-example : AlphaOrder.StrictTotal (fun a b : Nat => decide (a < b)) :=
-  ⟨fun a => by simp, fun a b c h1 h2 => by simp at *; omega, fun a b hne => by simp; omega⟩
+/-- **The hypothesis holds for the comparison the tools use**: `strcmp` over the bytes of the identifiers (unsigned bytes, first
+    difference decides, a proper prefix is smaller) is a strict total order — on byte strings and on identifiers through their
+    UTF-8 bytes.  (Lean's `String.<` compares code points: the same on ASCII identifiers only.) -/
+theorem C12_strcmp_is_a_strict_total_order :
+    AlphaOrder.StrictTotal AlphaOrder.strcmpLt ∧ AlphaOrder.StrictTotal AlphaOrder.nameStrcmpLt :=
+  ⟨AlphaOrder.strcmpLt_strictTotal, AlphaOrder.nameStrcmpLt_strictTotal⟩
+
+/-- … so, without any assumption left: exppp's alphabetized sections are independent of the dictionary walk under `strcmp` -/
+theorem C12_alphabetical_order_walk_independent_strcmp (w₁ w₂ : List String) (n₁ : w₁.Nodup) (n₂ : w₂.Nodup) (hp : w₁.Perm w₂) :
+    AlphaOrder.alphaOrder AlphaOrder.nameStrcmpLt w₁ = AlphaOrder.alphaOrder AlphaOrder.nameStrcmpLt w₂ :=
+  (C12_alphabetical_order_walk_independent _ AlphaOrder.nameStrcmpLt_strictTotal w₁ w₂ n₁ n₂ hp).1
 
 /-! ## order of the select types in the generated C++ -/
 
 /-- The order in which exp2cxx emits the select classes and the typedef blocks of renamed selects of a schema (list level, not
     only the set) is a function of the key strings of the schema's dictionary in definition order and of the item structure
-    only: under any two ambients (payload addresses) the select loop produces the same event list. -/
+    only: under any two ambients (payload addresses) the select loop produces the same event list.
+    BY PURITY OF THE MODEL: a congruence over `C12_hash_order_keys_only` — `SelOrder.visitAll` is a pure function of the walk; that
+    it IS what exp2cxx does is the list-level correspondence with every generated Sdai<SCHEMA>.h (checks/c17.py). -/
 theorem C12_select_emission_order_names_only (α β : Ambient) (base base' : Nat) (keys : List String) (isSel : String → Bool)
     (G : String → Option SelOrder.Sel) (fuel : Nat) (st : SelOrder.St) :
     (SelOrder.visitAll G fuel ((dictOrderUnder α base keys).filter isSel) st).out
@@ -222,7 +234,10 @@ theorem C12_select_emission_order_names_only (α β : Ambient) (base base' : Nat
     objects, the functions and the rules of a schema at module level (`PyModule.order`: rename-after-original scans, dictionary
     walks per kind, `SCOPEget_entities_superclass_order`) is a function of the key strings of the schema's dictionary in
     definition order and of the declarations only — `decls` stands for any way of reading kinds, heads and supertypes off the
-    dictionary walk: under any two ambients the module defines the same names in the same order. -/
+    dictionary walk: under any two ambients the module defines the same names in the same order.
+    BY PURITY OF THE MODEL: true of any pure function of the walk (`decls` is arbitrary), so it says nothing about `SCOPEPrint` by
+    itself; the content is `PyModule.order` + its correspondence with every generated <schema>.py (checks/c12.py) +
+    `C12_python_types_defined_exactly_once`. -/
 theorem C12_python_module_order_names_only (α β : Ambient) (base base' : Nat) (keys : List String) (fuel : Nat)
     (decls : List String → List PyModule.T × List GenPy.Entity × List String × List String) :
     (let d := decls (dictOrderUnder α base keys); PyModule.order d.1 d.2.1 (d.2.1.map (·.name)) fuel d.2.2.1 d.2.2.2)
